@@ -14,6 +14,7 @@ import Driver.C07
 import Driver.Queue
 import Driver.C03
 import Driver.C12
+import Driver.C17
 
 /-- global driver state: one slot per stateful model -/
 structure St where
@@ -26,6 +27,7 @@ structure St where
   c05 : Driver.C05.State := Driver.C05.init
   c07 : Driver.C07.State := Driver.C07.init
   c12 : Driver.C12.State := Driver.C12.init
+  c17 : Driver.C17.State := Driver.C17.init
   c06 : Driver.Queue.DState := Driver.Queue.init
   c14 : Driver.Queue.DState := Driver.Queue.init
 
@@ -35,6 +37,7 @@ def stepLine (st : St) (line : String) : St × String :=
   | "C19" :: rest => let (s', o) := Driver.C19.step st.c19 rest; ({ st with c19 := s' }, o)
   | "C02" :: rest => let (s', o) := Driver.C02.step st.c02 rest; ({ st with c02 := s' }, o)
   | "C10" :: rest => let (s', o) := Driver.C10.step st.c10 rest; ({ st with c10 := s' }, o)
+  | "C17" :: rest => let (s', o) := Driver.C17.step st.c17 rest; ({ st with c17 := s' }, o)
   | "C12" :: rest => let (s', o) := Driver.C12.step st.c12 rest; ({ st with c12 := s' }, o)
   | "C03" :: rest => (st, Driver.C03.step rest)
   | "C06" :: rest => let (s', o) := Driver.Queue.step st.c06 rest; ({ st with c06 := s' }, o)
